@@ -177,8 +177,19 @@ func (g *Gen) Parallel(tasks []func() []string) {
 	}
 	wg.Wait()
 	for _, fields := range res {
-		if fields != nil {
-			g.Line(fields...)
+		// a task may return several lines, separated by the field "\n"
+		for len(fields) > 0 {
+			k := 0
+			for k < len(fields) && fields[k] != "\n" {
+				k++
+			}
+			if k > 0 {
+				g.Line(fields[:k]...)
+			}
+			if k == len(fields) {
+				break
+			}
+			fields = fields[k+1:]
 		}
 	}
 }
